@@ -83,8 +83,9 @@ impl StrToStringShim for &str {
 pub struct Error { pub data: String, pub index: usize, pub is_limit: bool }
 impl Error {
     #[verifier::external_body]
-    pub fn with_loc<S>(message: S, data: String, index: usize) -> (r: Error) ensures r.data == data { unimplemented!() }
-    pub fn set_data(&mut self, data: String) ensures final(self).data == data { self.data = data; }
+    // Error::with_loc / set_data: the text is stored and the error is not a limit error (PROVED on the real constructors in unit `error`)
+    pub fn with_loc<S>(message: S, data: String, index: usize) -> (r: Error) ensures r.data == data, !r.is_limit { unimplemented!() }
+    pub fn set_data(&mut self, data: String) ensures final(self).data == data, !final(self).is_limit, final(self).index == old(self).index { self.data = data; self.is_limit = false; }
 }
 impl Clone for Error {
     #[verifier::external_body]
@@ -494,6 +495,8 @@ def cursor_shim_impl():
 
 PRELUDE = PRELUDE.replace("@@CURSOR_PRIMITIVES@@", cursor_shim_impl())
 
+# one call of the state machine never produces a LIMIT error (only Lexer::next does): proved in unit lexer_strings, assumed by unit lexer_next (same text)
+NO_LIMIT_POST = ("ensures", "never_a_limit_error", "r is Err ==> !r->Err_0.is_limit", ["C04", "C01"])
 KIND_POST = ("ensures", "token_has_the_right_kind_and_is_maximal", "r is Ok ==> token_ok(r->Ok_0.kind, r->Ok_0.data@, next_char(&*final(self)))", ["C03"])
 ADV_REQ = [("requires", "idle", "old(self).idle()"),
            ("requires", "source_is_the_model", "old(self).source@ == old(self).m@.chars && byte_off(old(self).m@.chars, old(self).m@.chars.len() as int) <= usize::MAX")]
